@@ -16,7 +16,7 @@ RULE = (
     "four base files (2.0 with ~V ~W ~P ~X ~C ~A; one with duplicated mnemonics; one version 1.2; one made of terse lines without description or without period); junk = every string "
     "of length 1..3 (thorough 1..4) over {. : blank a 1 \" - ( ) # / E _ , ~} (never with a leading tilde) plus adversarial long lines (500 periods, 500 "
     "colons, quotes only, 5000 digits, ':.', '.:', '..:', parsable lines carrying 25-40 digit integers, 1e999, hex); inserted at every line boundary inside ~V, ~W, ~P and the "
-    "custom section, one line at a time, and all pairs (two junk lines at two sites) over the short strings and over eight parsable lines ('%' in the name, blank and literal UNKNOWN names, a 5000-character name, the name of a genuine item), the same line twice included; each text "
+    "custom section, one line at a time, the same line 2 / 19..23 / 40 / 100 times at one site, and all pairs (two junk lines at two sites) over the short strings and over eight parsable lines ('%' in the name, blank and literal UNKNOWN names, a 5000-character name, the name of a genuine item), the same line twice included; each text "
     "is read with and without ignore_header_errors; non-trivial = junk that is neither blank nor a '#' comment"
 )
 ASSUMPTIONS = [
